@@ -261,8 +261,12 @@ def translate_join():
     q = t2.find_def(t2.parse(QUAD), 'to_meshtri', 'MeshQuad1')
     carry = [s for s in _body(q) if isinstance(s, ast.If) and t2.src(s.test) == 'self.boundaries']
     carry = t2.only(carry, 'to_meshtri: if self.boundaries')
-    if t2.src(carry) != CARRY:
-        raise TranslateError('to_meshtri: boundary carry-over: ' + t2.src(carry))
+    # width of the integer arithmetic of the lookup keys: both products are cast to int64, or neither (int32 of the tables)
+    csrc = t2.src(carry)
+    ncast = csrc.count('.astype(np.int64)')
+    if ncast not in (0, 2) or csrc.replace('.astype(np.int64)', '') != CARRY.replace('.astype(np.int64)', ''):
+        raise TranslateError('to_meshtri: boundary carry-over: ' + csrc)
+    bits = 64 if ncast == 2 else 32
     return '''(* Mesh._remove_duplicate_nodes: np.unique of the coordinate tuples with return_index / return_inverse *)
 Definition gen_dedupe_p (p : list key) : list key :=
   let tmp := unique_keys p in                                         (* sorted distinct tuples *)
@@ -279,7 +283,8 @@ Definition gen_join_t (p1 p2 : list key) (t1 t2 : mat nat) : mat nat :=   (* t1,
 Definition gen_carry_boundary (nv : nat) (old_facets new_facets : mat nat) (ixs : list nat) : list nat :=
   let keys := map (fun f => nth 0 f 0 * nv + nth 1 f 0) new_facets in                     (* mesh.facets[0] * nv + mesh.facets[1] *)
   map (fun i => searchsorted keys (facet_key nv (nth i old_facets []))) (sort_nat ixs).     (* searchsorted(keys, key(facets[:, ixs[order]])) *)
-Definition gen_carry_oriented := lookup_oriented.   (* cells = f2t[ori[order], ixs[order]]; ori = mesh.f2t[0, newf] % nt != cells *)'''
+Definition gen_key_bits : nat := @@BITS@@.   (* facets[0].astype(np.int64) * nv + facets[1] *)
+Definition gen_carry_oriented := lookup_oriented.   (* cells = f2t[ori[order], ixs[order]]; ori = mesh.f2t[0, newf] % nt != cells *)'''.replace('@@BITS@@', str(bits))
 
 
 SIMPLEX = 'skfem/mesh/mesh_simplex.py'
